@@ -11,6 +11,7 @@ import Driver.MediaDrv
 import Driver.CrashCoreDrv
 import Driver.WrapDrv
 import Driver.MsgWinDrv
+import Driver.FfiDrv
 
 def main (args : List String) : IO UInt32 := do
   match args with
@@ -27,4 +28,5 @@ def main (args : List String) : IO UInt32 := do
   | ["crashcore"] => Driver.CrashCoreDrv.main; return 0
   | ["wrap"] => Driver.WrapDrv.main; return 0
   | ["msgwin"] => Driver.MsgWinDrv.main; return 0
+  | ["ffi"] => Driver.FfiDrv.main; return 0
   | _ => IO.eprintln "usage: mdkdrv store < ops"; return 2
